@@ -1351,7 +1351,7 @@ package bpmn
 //@   ensures [the-listener-registers-once-with-the-egress-its-wiring-has] count(Call, code("event|ISource.RegisterEventConsumer")) == old(count(Call, code("event|ISource.RegisterEventConsumer"))) + 1 &&
 //@             lastval(Call, code("event|ISource.RegisterEventConsumer")) == old(wr.eventEgress)
 //@ func newHarness
-//@   prop C10
+//@   prop C10 C11
 //@   loop 1 range *process.BoundaryEvents()
 //@     invariant [only-boundary-events-attached-to-this-very-activity-are-adopted] forall a int :: off(boundaryEvents) <= a && a < off(boundaryEvents) + len(boundaryEvents) ==>
 //@               at(boundaryEvents, a) != nil && at(boundaryEvents, a).AttachedToRefField == wr.flowNodeId
